@@ -88,6 +88,27 @@ def cases(tier, seed):
     # rank-deficient / over-parameterised: a rank index that is never used (zero column) and the zero tensor
     cs.append({'scen': 'tt_round', 's': {'N': [2, 2], 'R': [1, 3, 1], 'patterns': [[[0, 0, 0], [0, 1, 1]], [[0, 0, 0], [1, 1, 0]]]}})
     cs.append({'scen': 'tt_round', 's': {'N': [2, 2, 2], 'R': [1, 2, 2, 1], 'patterns': [[[0, 0, 0], [0, 1, 0]], [[0, 0, 0], [0, 1, 1]], [[0, 0, 0], [1, 1, 0]]]}})
+    # unused rank index in front of the data (first column of the first unfolding is zero, its row in the next core carries data or not)
+    cs.append({'scen': 'tt_round', 's': {'N': [2, 2], 'R': [1, 3, 1], 'patterns': [[[0, 0, 1], [0, 1, 2]], [[1, 0, 0], [2, 1, 0]]]}})
+    cs.append({'scen': 'tt_round', 's': {'N': [2, 2, 2], 'R': [1, 3, 2, 1], 'patterns': [[[0, 0, 1], [0, 1, 2]], [[1, 0, 0], [2, 1, 1]], [[0, 0, 0], [1, 1, 0]]], 'sym_cores': [0, 2]}})
+    # sums with the zero tensor: zero blocks in front of / behind the data in every core
+    for N, R, M in [([2, 2], [1, 2, 1], None), ([2, 2, 2], [1, 2, 2, 1], None), ([2, 1], [1, 2, 1], [1, 2])] + ([([2, 3, 2], [1, 2, 2, 1], None)] if th else []):
+        pats = gen_tt_pattern(N, R, rng, M=M, dense_slices=True, skip=0)
+        base = {'N': N, 'R': R, 'patterns': [[list(p) for p in pk] for pk in pats]}
+        if M:
+            base['M'] = M
+        if len(N) >= 3:
+            base['sym_cores'] = [0, len(N) - 1]
+        for where in ('front', 'behind'):
+            cs.append({'scen': 'tt_round', 's': dict(base, plus_zero=where)})
+            cs.append({'scen': 'tt_round', 's': dict(base, plus_zero=where, eps='zero')})
+    # an interior mode of size one between two bonds of rank 3: both bonds see the same unfolding, the budget eps/sqrt(d-1) is spent twice
+    dd = [[[0, i, i] for i in range(3)], [[i, 0, i] for i in range(3)], [[i, i, 0] for i in range(3)]]
+    cs.append({'scen': 'tt_round', 's': {'N': [3, 1, 3], 'R': [1, 3, 3, 1], 'patterns': dd, 'sym_cores': [0]}})
+    cs.append({'scen': 'tt_round', 's': {'N': [3, 1, 3], 'R': [1, 3, 3, 1], 'patterns': dd, 'sym_cores': [1]}})
+    if th:
+        cs.append({'scen': 'tt_round', 's': {'N': [3, 1, 3], 'R': [1, 3, 3, 1], 'patterns': dd}})
+        cs.append({'scen': 'tt_round', 's': {'N': [3, 1, 1, 3], 'R': [1, 3, 3, 3, 1], 'patterns': [dd[0], dd[1], dd[1], dd[2]], 'sym_cores': [0]}})
     # operators
     for M, N, R in [([2], [2], [1, 1]), ([2, 2], [2, 2], [1, 2, 1]), ([2, 1], [1, 2], [1, 2, 1]), ([1, 2, 2], [2, 1, 2], [1, 2, 2, 1])]:
         for rep in range(2 if not th else 5):
